@@ -83,3 +83,10 @@ claim(
     "Trusted: python ast, bfsa.",
     "DESIGN.md section 4, C11",
 )
+claim(
+    "C13", "other",
+    "must-use path rule over all branch assignments of the unpack loop; byte-layout interpretation of the three payload conversions; guard normal forms with dominance for the rejections; constant-table agreement and pinned domain table; provenance grouping of instruction stores",
+    "Decides: each data line is parsed as U8 n, U16be offset, payload[n-2] and on every path through the unpack loop its payload is appended to the run being assembled (no line is dropped), addresses are (tag type - first tag type) * 0x10000 + offset, runs are stored at every gap and at the end; BF2-compatible sections are the unfiltered concatenation of all raw lines in order, blobs are blocks[0] guarded by `len(blocks) != 1 or 0 not in blocks -> raise`, memory images are {U32be address, U32be length, data} over the sorted extents; unmapped and unknown tag types and firmware without the BF3-update marker (when enforced, the default) are rejected before use; known-range bases equal the mapped tag types, range membership is inclusive, tag-type / interface / special-case / hardware-id tables equal the pinned domain table and the reverse hardware-id map is a bijection; REBOOT, CRC, SELECT, CHECK_FWVER/Firmware, SELECT_IF write exactly tags C5, C7, C9(+C4), C8, C6 with the documented encodings; the filter formatter checks its input's shape before indexing it. Byte preservation on executed images and the boolean equivalence of the rendered filter expression are not decided.",
+    "Trusted: python ast, bfsa, spec/bf2_tagtypes.json (domain table pinned at the analysed commit).",
+    "DESIGN.md section 4, C13",
+)
